@@ -548,6 +548,45 @@ def minimise(ctx: Ctx, case: dict, sig: str) -> list:
 
 
 # ---------------------------------------------------------------- identifier allocation correspondence
+class FakeMeta:
+    last_object_identifier = 0
+
+def idalloc_impl(keys, last, ops):
+    from numbers_parser import containers
+    from numbers_parser.constants import PACKAGE_ID
+    from numbers_parser.generated import TSTArchives_pb2 as TSTArchives
+    class FakeIWork:
+        def __init__(self, handler=None):
+            self.h = handler
+
+        def open(self, filepath):
+            for k in keys:
+                self.h._objects[k] = FakeMeta() if k == PACKAGE_ID else object()
+                self.h._object_to_filename_map[k] = "Index/Document.iwa"
+            if PACKAGE_ID in self.h._objects:
+                self.h._objects[PACKAGE_ID].last_object_identifier = last
+            from numbers_parser.iwafile import IWAFile
+            self.h._file_store["Index/CalculationEngine.iwa"] = IWAFile.from_dict({"chunks": [{"archives": []}]})
+    orig = containers.IWork
+    containers.IWork = FakeIWork
+    try:
+        st = containers.ObjectStore(Path("x.numbers"))
+        ids = []
+        for o in ops:
+            if o == "n":
+                ids.append(st.new_message_id())
+            else:
+                i, _ = st.create_object_from_dict("CalculationEngine", {"max_order": 1}, TSTArchives.StrokeSidecarArchive)
+                ids.append(i)
+        lastv = st._objects[PACKAGE_ID].last_object_identifier if PACKAGE_ID in st._objects else last
+        return ",".join(map(str, ids)) + f"\t{st._max_id}\t{lastv}\t{len(st._objects)}"
+    except Exception as e:  # noqa: BLE001
+        return "!" + type(e).__name__
+    finally:
+        containers.IWork = orig
+
+
+
 def idalloc_stream(ctx: Ctx, exe):
     """(1) the literal ObjectStore.__init__ / new_message_id / create_object_from_dict over stubbed loaders,
     (2) real allocations on the default document."""
@@ -557,39 +596,7 @@ def idalloc_stream(ctx: Ctx, exe):
     rng = ctx.rng
     cases, reqs, outs = [], [], []
 
-    class FakeMeta:
-        last_object_identifier = 0
-
-    def impl_run(keys, last, ops):
-        class FakeIWork:
-            def __init__(self, handler=None):
-                self.h = handler
-
-            def open(self, filepath):
-                for k in keys:
-                    self.h._objects[k] = FakeMeta() if k == PACKAGE_ID else object()
-                    self.h._object_to_filename_map[k] = "Index/Document.iwa"
-                if PACKAGE_ID in self.h._objects:
-                    self.h._objects[PACKAGE_ID].last_object_identifier = last
-                from numbers_parser.iwafile import IWAFile
-                self.h._file_store["Index/CalculationEngine.iwa"] = IWAFile.from_dict({"chunks": [{"archives": []}]})
-        orig = containers.IWork
-        containers.IWork = FakeIWork
-        try:
-            st = containers.ObjectStore(Path("x.numbers"))
-            ids = []
-            for o in ops:
-                if o == "n":
-                    ids.append(st.new_message_id())
-                else:
-                    i, _ = st.create_object_from_dict("CalculationEngine", {"max_order": 1}, TSTArchives.StrokeSidecarArchive)
-                    ids.append(i)
-            lastv = st._objects[PACKAGE_ID].last_object_identifier if PACKAGE_ID in st._objects else last
-            return ",".join(map(str, ids)) + f"\t{st._max_id}\t{lastv}\t{len(st._objects)}"
-        except Exception as e:  # noqa: BLE001
-            return "!" + type(e).__name__
-        finally:
-            containers.IWork = orig
+    impl_run = idalloc_impl
 
     key_sets = [[], [1], [2], [1, 2], [1, 2, 999999], [1, 2, 1000000], [1, 2, 1000001], [1, 2, 907355], [2, 5, 1999999],
                 [2, 2000000], [1, 2, 3, 16659], [2, 10 ** 9 + 1], [2, 2 ** 40 + 12345], [2, 7 * 10 ** 12], [2, 999999999999],
@@ -598,12 +605,25 @@ def idalloc_stream(ctx: Ctx, exe):
         m = rng.choice([rng.randrange(3, 3 * 10 ** 6), rng.randrange(10 ** 6, 10 ** 9), rng.choice([1, 2, 3, 17]) * 10 ** 6 + rng.choice([-1, 0, 1])])
         key_sets.append(sorted({1, 2, m, rng.randrange(1, m + 1)}) if rng.random() < 0.9 else [1, m])
     for ks in key_sets:
-        for _ in range(3):
+        for j in range(3):
             ops = "".join(rng.choice("nc") for _ in range(rng.randrange(0, 9)))
             last = max(ks) if ks else 0
-            cases.append({"keys": ks, "ops": ops})
+            if j == 2 and ks and max(ks) > 3:
+                # a recorded high-water mark that lags behind the objects present (tests/data/issue-18.numbers has
+                # one), also from an earlier million-block than the highest object
+                last = rng.choice([max(ks) - 1, max(ks) // 2, max(3, max(ks) - 1000001), 3])
+            cases.append({"keys": ks, "ops": ops, "last": last})
             reqs.append(f"ids\t{','.join(map(str, ks))}\t{last}\t{ops}")
-            outs.append(impl_run(ks, last, ops))
+            o = impl_run(ks, last, ops)
+            outs.append(o)
+            # implementation-only: added identifiers are new, distinct and not above the recorded mark
+            if not o.startswith("!") and ops and PACKAGE_ID in ks:
+                ids_s, _mx, lastv, _n = o.split("\t")
+                ids = [int(x) for x in ids_s.split(",") if x]
+                ctx.count("oracle-idalloc")
+                if len(set(ids)) != len(ids) or any(x in ks for x in ids) or max(ids) > int(lastv):
+                    ctx.oracle_fail("id-allocation", {"keys": ks, "last": last, "ops": ops},
+                                    f"objects {ks[-4:]}, recorded mark {last}: allocated {ids[:8]}, mark afterwards {lastv}")
     ctx.dist("idalloc:stubbed", len(cases))
     # real document
     from numbers_parser import Document
@@ -934,6 +954,19 @@ def search(ctx: Ctx, broken) -> list:
 
 def replay(path: str) -> int:
     d = json.loads(open(path).read())
+    if d.get("kind") == "failing-input" and d.get("signature") == "id-allocation" and "keys" in d["case"]:
+        c = d["case"]
+        o = idalloc_impl(c["keys"], c["last"], c["ops"])
+        bad = o.startswith("!")
+        if not bad:
+            ids = [int(x) for x in o.split("\t")[0].split(",") if x]
+            bad = len(set(ids)) != len(ids) or any(x in c["keys"] for x in ids) or (ids and max(ids) > int(o.split("\t")[2]))
+        if bad:
+            print(f"replay: still failing: id-allocation ({o})")
+            print(f"VIOLATION property=C07 replay={path}")
+            return 1
+        print("replay: case passes on the current tree")
+        return 0
     if d.get("kind") == "failing-input":
         case = d["case"]
         sub = common.Ctx("C07", "quick", 0, LEVEL)
